@@ -13,42 +13,51 @@ MOD = "moptipyapps.dynamic_control.ode"
 
 def run(ctx: Ctx) -> None:
     ctx.explanation = (
-        "Decided clauses of the simulation contract, all as shapes of the "
-        "code (statement CFG with labelled test outcomes, dominance and "
-        "avoiding-path queries; symbolic normal forms): D10.1 the retry loop "
+        "Decided clauses of the simulation contract. run_ode is normalised "
+        "(locals bound once to a value that cannot have changed at their "
+        "uses are inlined) and then analysed as a boolean program: a "
+        "relational fixpoint over partial valuations of its flags, of "
+        "order atoms (every spelling of a comparison of two operands is a "
+        "formula over the same lt / le atoms) and of the ghosts of a "
+        "typestate monitor; each clause is a requirement at an event that "
+        "must hold on every valuation reaching it. D10.1 the retry loop "
         "increments its cycle counter exactly once per round before the "
         "exit test and repeats only through its False outcome: at most 5 "
-        "integration cycles; D10.2 a multi-row result is returned only "
-        "behind the True outcomes of the finished flag and of the bound "
-        "tracker's is_ok, the first row is row 0 with the starting state, "
-        "the row loop visits result[1:], the first row and every later row "
-        "are tested as WHOLE rows by _is_ok, from a not-ok outcome the rows "
-        "can never be returned in that cycle, and _is_ok accepts exactly "
+        "integration cycles; D10.2 the multi-row result is returned only if "
+        "row 0 and every later row passed _is_ok as a WHOLE row after its "
+        "state and control cells were written, never after a failed test; "
+        "rows are built only after a finished integration that stayed in "
+        "bounds; the row loop visits result[1:]; _is_ok accepts exactly "
         "values strictly inside (-1e10, 1e10) (NaN fails); D10.3 before a "
         "row is tested the controller has been called for it on every path, "
         "as controller(<state of that row>, <time of that row>, parameters, "
-        "<control slots of that row>); D10.4 the failure row and the time "
-        "column linspace(0, max_time, steps); D10.5 j_from_ode allocates "
-        "exactly as many cells as the kernel stores; D10.6 the cells of "
-        "dest are the documented terms of J: v^2 * (t_i - t_{i-1}) * gamma "
-        "for the control columns and v^2 * (t_i - t_{i-1}) for the first "
-        "use_state_dims state columns of the PREVIOUS row (1e100 when |v| "
-        ">= 1e100), states left out for the first pair only, written to "
-        "dest[0], dest[1], ...; J = fsum(dest) / ode[-1, -1]; a single-row "
-        "result scores 1e200; the kernel receives its arguments in order; "
-        "D10.7 a row's state is interpolator(t) only after t_min <= t <= "
-        "t_max held for that interpolator and time, the search starts at "
-        "interpolator 0, advances by one per round, compares the index "
-        "with the list length before using it and leaves when exhausted; "
-        "D10.8 every cycle resets the bound tracker and the interpolator "
-        "list before building the integrator (t0 = 0, y0 = start, t_bound "
-        "= max_time), the finished flag is only ever `status == "
-        "'finished'` or False, each round performs one step and collects "
-        "its interpolator unless the step left the bounds, a finished "
-        "solver is not stepped again, a running one is. NOT decided: "
-        "termination and accuracy inside scipy's RK45, strict monotonicity "
-        "of float times, agreement with analytic solutions, the numeric "
-        "heuristics by which a failed cycle shortens the time frame.")
+        "<control slots of that row>), after the state was put in place; "
+        "control cells are never written otherwise; D10.4 the failure row "
+        "and the time column linspace(0, max_time, steps); D10.5 j_from_ode "
+        "allocates exactly as many cells as the kernel stores (per path of "
+        "j_from_ode, in terms of the arguments actually passed); D10.6 the "
+        "cells of dest are the documented terms of J: v^2 * (t_i - "
+        "t_{i-1}) * gamma for the control columns and v^2 * (t_i - t_{i-1}) "
+        "for the first use_state_dims state columns of the PREVIOUS row "
+        "(1e100 when |v| >= 1e100), states left out for the first pair "
+        "only, written to dest[0], dest[1], ...; J = fsum(dest) / ode[-1, "
+        "-1]; a single-row result scores 1e200; the kernel receives (ode, "
+        "state_dim, use_state_dims or state_dim when that is <= 0, gamma, "
+        "dest); D10.7 a row's state is interpolator(t) only where t_min <= "
+        "t <= t_max is known to hold for that interpolator and the row's "
+        "own time; the search starts at interpolator 0, moves on only while "
+        "the current one does not cover t, advances the index by one per "
+        "round, compares it with the list length before using it and is "
+        "left when the list is exhausted; D10.8 every cycle resets the "
+        "bound tracker and empties the interpolator list before building "
+        "the integrator (t0 = 0, y0 = start, t_bound = max_time, over the "
+        "tracker's f), each step's interpolator is collected before the "
+        "next step unless the step left the bounds, a finished or failed "
+        "solver is not stepped again, a running one is, rows are built only "
+        "when the status is 'finished'. NOT decided: termination and "
+        "accuracy inside scipy's RK45, strict monotonicity of float times, "
+        "agreement with analytic solutions, the numeric heuristics by which "
+        "a failed cycle shortens the time frame.")
     for rid, txt in (("D10.1", "at most 5 integration cycles"),
                      ("D10.2", "returned rows pass _is_ok"),
                      ("D10.3", "controls come from the controller"),
